@@ -933,6 +933,15 @@ fn inl_case(out: &mut impl Write, cunit: &str, cid: &str, seed: u64, n: usize) {
     }
 }
 
+/// Compile-time facts of the REAL headers, measured through the unity build: the largest value each
+/// size field of the inline subtree representation can hold (all-ones object read back through the
+/// runtime's own accessors) and the number of slots of a stack node's link array.
+fn bits_case(out: &mut impl Write, cunit: &str, cid: &str) {
+    let real = cunit_lines(cunit, "bits\n");
+    writeln!(out, "spec {cid} bits").unwrap();
+    writeln!(out, "bitsq {cid} | {}", real.first().map(|s| s.as_str()).unwrap_or("bits missing")).unwrap();
+}
+
 fn main() {
     limit_resources();
     unsafe {
@@ -992,12 +1001,13 @@ fn main() {
         for _ in 0..(if thorough { 10 } else { 3 }) {
             specs.push(format!("ess {} {}", rng.next() % 1_000_000_007, 60));
         }
+        specs.push("bits".to_string());
     }
     let mut langs_cache: std::collections::HashMap<String, Option<zoo::Built>> = std::collections::HashMap::new();
     let mut nhist = 0;
     for (i, line) in specs.iter().enumerate() {
         let f: Vec<&str> = line.split_whitespace().collect();
-        let f: Vec<&str> = if f.len() >= 2 && ["hist", "arr", "inl", "pw", "cl", "ess", "al"].contains(&f[1]) { f[1..].to_vec() } else { f };
+        let f: Vec<&str> = if f.len() >= 2 && ["hist", "arr", "inl", "pw", "cl", "ess", "al", "bits"].contains(&f[1]) { f[1..].to_vec() } else { f };
         match f.as_slice() {
             ["hist", kind, lang, seed] => {
                 let b = langs_cache.entry(lang.to_string()).or_insert_with(|| zoo::load(lang).ok());
@@ -1033,6 +1043,7 @@ fn main() {
             ["pw", seed, n] => pw_case(&mut out, &cunit, &format!("p{i}"), seed.parse().unwrap(), n.parse().unwrap()),
             ["cl", seed, n] => cl_case(&mut out, &cunit, &format!("c{i}"), seed.parse().unwrap(), n.parse().unwrap()),
             ["ess", seed, n] => ess_case(&mut out, &cunit, &format!("e{i}"), seed.parse().unwrap(), n.parse().unwrap()),
+            ["bits"] => bits_case(&mut out, &cunit, &format!("b{i}")),
             ["al", seed, n] => al_case(&mut out, &cunit, &format!("l{i}"), seed.parse().unwrap(), n.parse().unwrap()),
             _ => {}
         }
